@@ -9,6 +9,14 @@ def shard_choose(var, n):
     return ["%s=%d" % (var, i) for i in range(n)]
 
 
+def shard_product(*dims):
+    """dims: (var, n) pairs -> list of 'a=0;b=1' shard strings"""
+    out = [""]
+    for var, n in dims:
+        out = [(o + ";" if o else "") + "%s=%d" % (var, i) for o in out for i in range(n)]
+    return out
+
+
 PROPS = {
     "C01": {
         "claim": "content clause of the round trip, decided at the escaping kernels of the real code",
@@ -19,6 +27,25 @@ PROPS = {
         "outside": "whole-tree to_string/parse pipeline (generator-driven serializer, xmlparser tokenizer)",
         "assumptions": [],
     },
+}
+
+C04_SHARDS = (["shape=%d;opkind=0;op=%d" % (s_, o) for s_ in range(6) for o in range(9)]
+              + ["shape=%d;opkind=%d" % (s_, k) for s_ in range(6) for k in (1, 2)])
+
+PROPS["C04"] = {
+    "claim": "structural validity of the forest after arbitrary public calls, decided on the real manipulation / "
+             "indextree code from constructor-built start forests",
+    "harnesses": [
+        H("h_c04_step", {"CALLS": 1}, {"CALLS": 2},
+          shards={"quick": C04_SHARDS, "thorough": C04_SHARDS},
+          budget=(900, 3000)),
+    ],
+    "panic_ok": ["h_c04_step"],
+    "bounds": {"quick": "6 start forests (5-8 nodes, all text-like contents symbolic), 1 call drawn from 30 operations with "
+                        "every tuple of live nodes as arguments",
+               "thorough": "same forests, every sequence of 2 calls"},
+    "outside": "histories longer than 2 calls; forests other than the catalogue; parsing as a history step",
+    "assumptions": [],
 }
 
 PROPS["DBG"] = {
